@@ -506,6 +506,13 @@ def check_usage_errors(ctx: Ctx) -> None:
         no_input = any(lab == "T" and _is_not_files(prog, main, b) for b, lab in guards)
         if no_input and _in_except(r.ast) is None:
             n_ret += 1
+            if isinstance(val, (ast.Name, ast.Attribute)):
+                # a named exit status (`_EXIT_USAGE_ERROR = 1`)
+                from ..loader import ConstInfo as _CI
+
+                r_ = repo.resolve_expr(val, main.module, main)
+                if isinstance(r_, _CI) and isinstance(r_.value, ast.Constant):
+                    val = r_.value
             ok = isinstance(val, ast.Constant) and isinstance(val.value, int) and val.value != 0
             ctx.ob("R-USAGE", f"{main.qual} :: no-input branch -> return", ok,
                    f"missing input must give a non-zero exit status, returns {norm(val) if val else None}", where(main, r))
